@@ -7,7 +7,7 @@ from .guardlib import gval, comparisons, lt_true, ge_true
 
 MANIFEST = {
     "text": "Typestate and guard-dominance rules over every path of every function of both tree builders (normal forms): a node passed to an append-family call is fresh (just created) or was detached by remove_from_parent earlier on the same path; get_template_contents is called only under a 'this is an HTML template element' test; a doctype is appended only on a path that leaves the initial mode/phase or tests-and-sets a once-flag; attributes reach create_element only through the de-duplicating paths; plus equality of all tree-builder functions with their reviewed normal forms.",
-    "note": "Decides R05.1-R05.6 in the stated structural form. Not decided: that no node is ever inserted under one of its own descendants for arbitrary future re-parenting code (checked only as fresh-or-detached), element-kind of handles beyond the template test. Also decided: every prefixed XML attribute path runs the duplicate test (R05.6). Also decided: form association only for HTML-namespace form-associated elements (R05.8).",
+    "note": "Decides R05.1-R05.6 in the stated structural form. Not decided: that no node is ever inserted under one of its own descendants for arbitrary future re-parenting code (checked only as fresh-or-detached), element-kind of handles beyond the template test. Also decided: every prefixed XML attribute path runs the duplicate test (R05.6). Also decided: form association only for HTML-namespace form-associated elements (R05.8). Round 8: add_attrs_if_missing only for the html element or the element body_elem() established to be the body (R05.10).",
     "technique": "typestate / guard-dominance rules over function normal forms (all sink call sites)",
 }
 LEVEL = "other"
